@@ -101,11 +101,12 @@ pub fn accessors<R>(a: &Archive<R>) -> Accessors {
 
 /// Clone through the library: fetch every chunk still missing, decompress, verify,
 /// feed. `seeds` are chunked with the archive's chunker first (as local-cloner does).
-async fn clone_with<R>(
+pub async fn clone_with<R>(
     reader: R,
     seeds: &[Arc<Vec<u8>>],
     buffered: usize,
     out: MemFile,
+    in_place: bool,
 ) -> Result<(MemFile, Accessors), String>
 where
     R: ArchiveReader,
@@ -115,7 +116,28 @@ where
         .await
         .map_err(|e| format!("try_init: {:?}", e))?;
     let acc = accessors(&archive);
+    let prior_index = if in_place {
+        // Scan the prior content of the output with the archive's chunker (as the CLI and
+        // bitar's in-place-cloner example do).
+        let mut index = bitar::ChunkIndex::new_empty(archive.chunk_hash_length());
+        let src = FragSource::new(Arc::new(out.data.clone()), FragPlan::Random { seed: 11, max: 3000 }, PendPlan::Every(7));
+        let mut chunker = archive.chunker_config().new_chunker(src);
+        while let Some(r) = chunker.next().await {
+            let (offset, chunk) = r.map_err(|e| format!("output chunker: {}", e))?;
+            let (hash, chunk) = chunk.verify().into_parts();
+            index.add_chunk(hash, chunk.len(), &[offset]);
+        }
+        Some(index)
+    } else {
+        None
+    };
     let mut output = CloneOutput::new(out, archive.build_source_index());
+    if let Some(index) = prior_index {
+        output
+            .reorder_in_place(index)
+            .await
+            .map_err(|e| format!("reorder_in_place: {}", e))?;
+    }
     for seed in seeds {
         let src = FragSource::new(seed.clone(), FragPlan::Random { seed: 5, max: 4096 }, PendPlan::Every(5));
         let mut chunker = archive.chunker_config().new_chunker(src);
@@ -160,7 +182,17 @@ pub async fn lib_clone_io(
     buffered: usize,
 ) -> Result<(MemFile, Accessors), String> {
     let reader = IoReader::new(FragSource::new(archive, frag, pend));
-    clone_with(reader, seeds, buffered, MemFile::new(Vec::new())).await
+    clone_with(reader, seeds, buffered, MemFile::new(Vec::new()), false).await
+}
+
+pub fn http_reader(url: &str, retries: u32) -> Result<HttpReader, String> {
+    let client = reqwest::Client::builder()
+        .no_proxy()
+        .build()
+        .map_err(|e| format!("client: {}", e))?;
+    Ok(HttpReader::from_request(client.get(url))
+        .retries(retries)
+        .retry_delay(std::time::Duration::from_millis(0)))
 }
 
 pub async fn lib_clone_http(url: &str, retries: u32, buffered: usize) -> Result<(MemFile, Accessors), String> {
@@ -171,5 +203,5 @@ pub async fn lib_clone_http(url: &str, retries: u32, buffered: usize) -> Result<
     let reader = HttpReader::from_request(client.get(url))
         .retries(retries)
         .retry_delay(std::time::Duration::from_millis(0));
-    clone_with(reader, &[], buffered, MemFile::new(Vec::new())).await
+    clone_with(reader, &[], buffered, MemFile::new(Vec::new()), false).await
 }
